@@ -9,7 +9,12 @@ pub struct Rng(pub u64);
 
 impl Rng {
     pub fn new(seed: u64) -> Self {
-        Rng(seed.wrapping_mul(0x9E3779B97F4A7C15).wrapping_add(0xD1B54A32D192ED03))
+        // The state advances by the same odd constant that used to scale the seed, so consecutive seeds gave
+        // the SAME stream shifted by one draw (the runner's shard seeds are consecutive). The start state is
+        // therefore the finalised output of that first state: unrelated streams for related seeds.
+        let mut r = Rng(seed.wrapping_mul(0x9E3779B97F4A7C15).wrapping_add(0xD1B54A32D192ED03));
+        let s = r.next() ^ seed.rotate_left(32).wrapping_mul(0xD6E8FEB86659FD93);
+        Rng(s)
     }
     pub fn next(&mut self) -> u64 {
         self.0 = self.0.wrapping_add(0x9E3779B97F4A7C15);
